@@ -11,7 +11,8 @@
 //!   T <cap> <seed> <pct|rand> <cc> <n> <K> [wide] | P: <op>* | P: ... | C: <op>*   one schedule, traced
 //!        (cc, n, K: the chunk size / table size / publish cadence the engine computed from the
 //!         constants in the CURRENT shared.rs / mod.rs; passed through to the model driver)
-//!   S <cap> <seed> <runs> [wide] | P: ... | C: ...                                   <runs> schedules, monitors only
+//!   S <cap> <seed> <runs> [wide] [rr<k>] | P: ... | C: ...                           <runs> schedules, monitors only
+//!        (rr<k>: every schedule starts with a round-robin prefix of k events per thread)
 //!   K <function> <row>*                                                              D3 skeleton row list (echoed)
 //! output:
 //!   T: `<ok <n> done | FAIL <clause> ...> ;; <cap> <cc> <n> <K> <idbase> TH P <ops> TH C <ops> ... RES <tI=[..]>* T <event>*`
@@ -106,6 +107,8 @@ fn main() {
     let scen_threads =
       threads.iter().map(|(k, ops)| format!("{k}: {}", ops.join(" "))).collect::<Vec<_>>().join(" | ");
     let wide = head.contains(&"wide");
+    // `rr<k>`: round-robin prefix of k events per thread (passed through to scen)
+    let rr = head.iter().find(|t| t.starts_with("rr") && t[2..].parse::<usize>().is_ok()).map(|t| format!(" {t}")).unwrap_or_default();
     match head[0] {
       "K" => {
         let f = head.get(1).copied().unwrap_or("?");
@@ -114,11 +117,12 @@ fn main() {
       "S" if head.len() >= 4 => {
         let s = scen.get_or_insert_with(Scen::start);
         let ans = s.ask(&format!(
-          "mpscb {} {} {} oneline{} | {}",
+          "mpscb {} {} {} oneline{}{} | {}",
           head[1],
           head[3],
           head[2],
           if wide { " wide" } else { "" },
+          rr,
           scen_threads
         ));
         if ans.starts_with("ok ") {
@@ -130,11 +134,12 @@ fn main() {
       "T" if head.len() >= 7 => {
         let s = scen.get_or_insert_with(Scen::start);
         let ans = s.ask(&format!(
-          "mpscb {} 1 {} trace {} results oneline{} | {}",
+          "mpscb {} 1 {} trace {} results oneline{}{} | {}",
           head[1],
           head[2],
           head[3],
           if wide { " wide" } else { "" },
+          rr,
           scen_threads
         ));
         let segs: Vec<&str> = ans.split(" ;; ").collect();
